@@ -41,4 +41,17 @@ CHECKS = {
          "frame of the same step label in a reference configuration (equality is transitive, so all pairs are decided); for every split point of a fixed-step run the run is stopped, resumed from its returned "
          "(or reloaded) solution, and each resumed frame j is compared bitwise with frame N1+j of the uninterrupted run, with and without screening."),
    note="bitwise comparison through h5py; memory-only runs expose only the final state; resume part restricted to time-independent drives and fixed dt as the statement requires; physics inputs outside the alphabet are not covered"),
+ "C01": dict(
+   engine="mc-core", category="model_checking", design_ref="DESIGN.md 3/C01",
+   technique="state invariant (per-cell discrete continuity from raw mesh arrays + independent SI unit model) evaluated on every recorded frame of an exhaustive product of configurations; exhaustive enumeration of balanced current tuples for acceptance",
+   text=("Every run of a finite union of full products (devices with 2, 3, 4 terminals x balanced current assignments incl. non-representable decimals and time-dependent callables x field {0, static, ramp} x adaptive x save interval; "
+         "plus screening, three unit systems and seeded starts) is executed end to end and on every recorded frame the net edge current leaving each Voronoi cell, recomputed from the stored mesh arrays, must equal the terminal current "
+         "injected through that cell's share of each terminal, recomputed from shapely terminal membership and the SI unit model. All balanced n-tuples over {-3..3} (and tenths/thirds) must be accepted by the solver."),
+   note="geometries outside the zoo and current values outside the alphabet are not explored (the invariant is linear in the currents); step 0 of unseeded biased runs is a recorded known finding"),
+ "C06": dict(
+   engine="mc-core", category="model_checking", design_ref="DESIGN.md 3/C06",
+   technique="state invariants on every recorded step of an exhaustive configuration product: exact pinning on independently computed terminal sites, differential run without terminals, and re-derivation of every free site's update by an independent reference step",
+   text=("For every (device, terminal value in {0, None, 1, 0.5, 0.6+0.8j, 1e-3}, drive, screening) the real solver is run with save_every=1; at every recorded step psi on the terminal sites (recomputed with shapely) must equal the configured value "
+         "(bitwise for 0), every other site's new psi must be reproduced from the previous recorded state by RM-step (explicit neighbour sums, extended precision), and with the value unset the frames must be bitwise those of the same mesh without terminals."),
+   note="free-evolution clause skipped for screening runs (per-iteration link variables are not recorded); uses the stored dimensionless vector potential; devices outside the zoo not covered"),
 }
